@@ -176,6 +176,36 @@ func (w *widthAnalysis) shiftMaxAt(v ssa.Value, at ssa.Instruction) (int64, bool
 	if cv, ok := v.(*ssa.Convert); ok {
 		return w.shiftMaxAt(cv.X, at)
 	}
+	if b, ok := v.(*ssa.BinOp); ok && b.Op == token.SUB {
+		// i - k for a counter i that starts at c0 >= k and only grows: never negative, at most max(i) - k
+		if k, isK := constInt(b.Y); isK && k >= 0 {
+			if phi, isPhi := b.X.(*ssa.Phi); isPhi {
+				if m, ok := w.counterMaxAt(phi, at); ok {
+					c0 := int64(-1)
+					for _, e := range phi.Edges {
+						if kk, ok := constInt(e); ok {
+							c0 = kk
+						}
+					}
+					if c0 >= k && m >= k {
+						return m - k, true
+					}
+				}
+			}
+		}
+	}
+	if b, ok := v.(*ssa.BinOp); ok && b.Op == token.ADD {
+		if k, isK := constInt(b.Y); isK && k >= 0 {
+			if m, ok := w.shiftMaxAt(b.X, at); ok {
+				return m + k, true
+			}
+		}
+		if k, isK := constInt(b.X); isK && k >= 0 {
+			if m, ok := w.shiftMaxAt(b.Y, at); ok {
+				return m + k, true
+			}
+		}
+	}
 	if b, ok := v.(*ssa.BinOp); ok && b.Op == token.MUL {
 		if k, isK := constInt(b.X); isK && k > 0 {
 			if m, ok := w.shiftMaxAt(b.Y, at); ok {
@@ -622,6 +652,10 @@ func (c *Ctx) rulePanicSources(rr *RuleRep, rs []*ssa.Function) {
 			case *ssa.TypeAssert:
 				if !x.CommaOk {
 					n++
+					if why := c.waiterAssertSafe(x); why != "" {
+						rr.OK(key+"/type-assert", in.Pos(), "%s", why)
+						return
+					}
 					// assertion to an interface on a value statically of that dynamic type set is still a panic source
 					rr.Bad(key+"/type-assert", in.Pos(), "single-result type assertion on the read side panics when the dynamic type differs")
 				}
@@ -1098,7 +1132,7 @@ func (c *Ctx) ruleServeNeverNil(rr *RuleRep) {
 
 // ruleBodyLengthBound (R-C06-2, also R-C11-8): the packet body allocation in readPacket is non-negative and at most 2^28-1.
 func (c *Ctx) ruleBodyLengthBound(r2 *RuleRep) {
-	rp := c.Func("readPacket")
+	rp := c.readFunc()
 	if rp == nil {
 		r2.Lost("readPacket", "not found")
 	} else {
